@@ -97,8 +97,8 @@ func (c *Ctx) splitChunk(ch chunk, k int) (chunk, chunk) {
 	}
 	lo := c.fresh("Int", "lo")
 	hi := c.fresh("Int", "hi")
-	c.lines = append(c.lines, fmt.Sprintf("(assert (and (= %s (+ %s (* %s %s))) (<= 0 %s) (< %s %s) (<= 0 %s) (< %s %s)))",
-		ch.t, lo, hi, pow2(k), lo, lo, pow2(k), hi, hi, pow2(ch.w-k)))
+	c.emit(fmt.Sprintf("(assert (and (= %s (+ %s (* %s %s))) (<= 0 %s) (< %s %s) (<= 0 %s) (< %s %s)))",
+		ch.t, lo, hi, pow2(k), lo, lo, pow2(k), hi, hi, pow2(ch.w-k)), false)
 	c.setMax(lo, new(big.Int).Sub(pow2(k), big.NewInt(1)))
 	c.setMax(hi, new(big.Int).Sub(pow2(ch.w-k), big.NewInt(1)))
 	a, b := chunk{lo, k}, chunk{hi, ch.w - k}
